@@ -60,3 +60,8 @@ claim("C14", "model_checking", "explicit exploration of compilation histories in
       "60 events (12 models chosen to share process-global keys - LUTs, value-keyed weights, zero biases, duplicate tensor names, CPU operators, two networks that enter the hill-climb random search - x {main on 3 accelerators, convert, convert_bytes}); every history of length 2 (thorough: length 3 over distinct models) runs in one forked process and the bytes + summary of its last event must equal those of that event alone; main/convert/convert_bytes must agree byte for byte; 12 events are repeated in fresh interpreters under several PYTHONHASHSEED values and heap perturbations.",
       "Initial process state = worker that imported Vela but never compiled; histories longer than 3 are not explored; canonical-state pruning is not used (all histories are run).",
       "DESIGN.md section 4 C14")
+
+claim("C03", "model_checking", "value-free execution (tag machine) of every emitted command stream over shadow memory holding the last writer of each byte; state = stream position + shadow memory, invariant checked at every read",
+      "For every compiled network x configuration the streams are decoded from the output file and executed in program order with CPU operators defining their outputs in between; every IFM/IFM2 byte read must carry the identity (tensor, logical element) the compiler's high-level command names, weights/scales/LUT bytes must hold exactly the constant bytes of the intended slice (directly or through a DMA'd buffer), DMA sources must be defined, and a custom operator's declared outputs must have been produced where the file places them. Rolling buffers, double-buffered weights, in-place reuse and LUT slot reuse are exercised by the sweep (counters in evidence).",
+      "Operations execute atomically in program order (asynchrony is C04); expected identities come from the side-band high-level command list while all addresses come from the emitted registers; decoded op lists are matched 1:1 with the NpuOperation lists (traces_validated_against_impl).",
+      "DESIGN.md section 4 C03")
